@@ -11,6 +11,7 @@
 //	Truncate    write only the first K bytes of the response, close
 //	Delay       sleep D before delivering the response
 //	Corrupt     flip bytes in the response body (after the size prefix)
+//	Rewrite     pass the response frame through Action.Rewrite (see RewriteBody)
 package faultnet
 
 import (
@@ -34,10 +35,11 @@ const (
 	Truncate
 	Delay
 	Corrupt
+	Rewrite
 )
 
 func (k Kind) String() string {
-	return [...]string{"pass", "kill-before", "kill-after", "truncate", "delay", "corrupt"}[k]
+	return [...]string{"pass", "kill-before", "kill-after", "truncate", "delay", "corrupt", "rewrite"}[k]
 }
 
 // Action is the decision for one request.
@@ -45,6 +47,37 @@ type Action struct {
 	Kind Kind
 	K    int           // Truncate: bytes of the response to deliver
 	D    time.Duration // Delay
+	// Rewrite: receives the complete response frame kfake wrote (size prefix
+	// included) and returns the frame to deliver instead.
+	Rewrite func(frame []byte) []byte
+}
+
+// RewriteBody decodes the response in frame (a complete response frame for
+// request r), lets mutate change it, and returns the re-encoded frame. If
+// the frame cannot be decoded it is returned unchanged.
+func RewriteBody(r *Req, frame []byte, mutate func(kmsg.Response)) []byte {
+	kreq := kmsg.RequestForKey(r.Key)
+	if kreq == nil || len(frame) < 8 {
+		return frame
+	}
+	kreq.SetVersion(r.Version)
+	resp := kreq.ResponseKind()
+	resp.SetVersion(r.Version)
+	hdr := 8
+	if resp.IsFlexible() && r.Key != 18 { // the ApiVersions response header is never flexible
+		hdr = 9
+	}
+	if len(frame) < hdr {
+		return frame
+	}
+	if err := resp.ReadFrom(frame[hdr:]); err != nil {
+		return frame
+	}
+	mutate(resp)
+	out := append([]byte(nil), frame[:hdr]...)
+	out = resp.AppendTo(out)
+	binary.BigEndian.PutUint32(out, uint32(len(out)-4))
+	return out
 }
 
 // Req describes one request frame seen on a connection.
@@ -104,7 +137,7 @@ type Net struct {
 	listeners int
 	seq       atomic.Int64
 	connSeq   atomic.Int64
-	counts    [6]atomic.Int64
+	counts    [7]atomic.Int64
 	conns     map[*conn]struct{}
 }
 
@@ -135,7 +168,7 @@ func (n *Net) Events() []*Event {
 // Fired returns how many times each action kind was applied.
 func (n *Net) Fired() map[string]int64 {
 	m := map[string]int64{}
-	for k := Pass; k <= Corrupt; k++ {
+	for k := Pass; k <= Rewrite; k++ {
 		if c := n.counts[k].Load(); c > 0 {
 			m[k.String()] = c
 		}
@@ -340,6 +373,13 @@ func (c *conn) Write(p []byte) (int, error) {
 		return 0, errKilled
 	case Delay:
 		time.Sleep(ev.Action.D)
+	case Rewrite:
+		if ev.Action.Rewrite != nil {
+			if _, err := c.Conn.Write(ev.Action.Rewrite(append([]byte(nil), p...))); err != nil {
+				return 0, err
+			}
+			return len(p), nil
+		}
 	case Corrupt:
 		q := append([]byte(nil), p...)
 		for i := 8; i < len(q); i += 1 + len(q)/7 {
